@@ -10,7 +10,7 @@
 (* the implementation-shaped model and SortedSetTrace.tla binds them to    *)
 (* recorded calls.                                                         *)
 (***************************************************************************)
-EXTENDS Integers, Sequences, FiniteSets, TLC, BigNat
+EXTENDS Integers, Sequences, SequencesExt, FiniteSets, TLC, BigNat
 
 ZeroKey == <<0, 0>>
 EmptySet == [m |-> <<>>, P |-> 0]
@@ -21,7 +21,6 @@ WithP(m, P) ==
   LET n == Cardinality(DOMAIN m)
   IN  [m |-> m, P |-> IF n = 0 THEN 0 ELSE IF n > P THEN n ELSE P]
 
-Restrict(f, D) == [x \in D |-> f[x]]
 
 SAdd(s, k) ==
   IF k[1] \in DOMAIN s.m THEN [s |-> s, res |-> FALSE]
@@ -48,16 +47,26 @@ ValidNew(keys, m) ==
 Before(rev, a, b) == IF rev THEN a > b ELSE a < b
 
 \* The in-order listing: the unique sequence of the stored keys that is
-\* strictly ascending under the comparator.
+\* strictly ascending under the comparator.  InorderDecl says it; Inorder computes
+\* the same sequence by sorting (n log n instead of n^3 in TLC: histories with
+\* thousands of keys); their equality is an invariant of the Scapegoat model
+\* (InorderAgrees) on every reachable abstract set.
 RECURSIVE SortedFrom(_, _, _)
 SortedFrom(m, rev, D) ==
   IF D = {} THEN <<>>
   ELSE LET c == CHOOSE x \in D : \A y \in D : y = x \/ Before(rev, x, y)
        IN  <<<<c, m[c]>>>> \o SortedFrom(m, rev, D \ {c})
-Inorder(s, rev) == SortedFrom(s.m, rev, DOMAIN s.m)
+InorderDecl(s, rev) == SortedFrom(s.m, rev, DOMAIN s.m)
+
+SortedOf(m, rev, D) ==
+  LET q == SetToSortSeq(D, LAMBDA a, b : Before(rev, a, b))
+  IN  [i \in 1..Len(q) |-> <<q[i], m[q[i]]>>]
+Inorder(s, rev) == SortedOf(s.m, rev, DOMAIN s.m)
 
 \* keys not less than class c, in order
 InorderAfter(s, rev, c) ==
+  SortedOf(s.m, rev, {x \in DOMAIN s.m : x = c \/ Before(rev, c, x)})
+InorderAfterDecl(s, rev, c) ==
   SortedFrom(s.m, rev, {x \in DOMAIN s.m : x = c \/ Before(rev, c, x)})
 
 MinKey(s, rev) == IF DOMAIN s.m = {} THEN ZeroKey ELSE Inorder(s, rev)[1]
